@@ -170,7 +170,7 @@ def gen(rng, tier):
     add(ops, ['coupon'], 'cpn')
 
     # ---- (a) same item stream into the three types + a full-size register ----
-    lgks = list(range(4, 13)) if quick else list(range(4, 15)) * 3
+    lgks = list(range(4, 13)) if quick else list(range(4, 15)) * 2
     for lgk in lgks:
         pts = promo_points(lgk)
         prom = max(pts)
@@ -219,7 +219,7 @@ def gen(rng, tier):
         add(ops, tags, 'items')
 
     # ---- (b) raw coupons at small lg_k: cur-min shifts and aux exceptions ----
-    nb_cases = 36 if quick else 600
+    nb_cases = 36 if quick else 400
     for ci in range(nb_cases):
         lgk = rng.choice([4, 4, 5, 5, 6, 7])
         if not quick and ci % 10 == 0:
@@ -270,7 +270,7 @@ def gen(rng, tier):
         add(ops, tags, 'raw')
 
     # ---- (c) order / duplicate independence ----
-    nc_cases = 30 if quick else 500
+    nc_cases = 30 if quick else 350
     for ci in range(nc_cases):
         lgk = rng.choice([4, 5, 6, 7, 8, 9, 10])
         k = 1 << lgk
